@@ -26,6 +26,7 @@ REWRITES = {
     "R4": "tuple pattern in a parameter list `(a, b): (A, B)` -> `p_r4: (A, B)` + `let (a, b) = p_r4;`",
     "R5": "`x.extend(y.iter().cloned())` -> `vec_extend_cloned(&mut x, &y)` (iterator adapters unsupported)",
     "R6": "visibility `pub(super)` / `pub(crate)` / private -> `pub`; struct fields made `pub` (open spec fns need them); #[derive(..)], #[struct_meta(..)] attributes on copied types dropped",
+    "R9": "`C.iter().rev()` over a const slice literal C -> external fn C_r2_rev() whose spec is the reversed literal (semantics of slice::iter().rev() trusted)",
     "R8": "`impl Trait` / `impl Fn(..)` argument position and generic closures: `to_expr: impl Fn(&FieldEntry) -> TokenStream` kept; only if listed per function",
 }
 
@@ -258,6 +259,10 @@ def rw_R2_uses(t):
     return t2, n
 
 
+def rw_R9(t):
+    return re.subn(r'(\w+::[A-Z_]+_r2)\(\)\.iter\(\)\.rev\(\)', r'\1_rev()', t)
+
+
 def rw_R3(t):
     """`if C {\n continue;\n }` directly in a for body -> wrap the remainder of that body."""
     n = 0
@@ -303,10 +308,17 @@ def rw_vis(t):
     return re.subn(r'\bpub\((?:super|crate)\)\s+', 'pub ', t)
 
 
-RW = {"R1": rw_R1, "R3": rw_R3, "R4": rw_R4, "R5": rw_R5, "R2u": rw_R2_uses}
+RW = {"R9": rw_R9, "R1": rw_R1, "R3": rw_R3, "R4": rw_R4, "R5": rw_R5, "R2u": rw_R2_uses}
 
 
 def _occ(text, anchor, n):
+    if n < 0:
+        idx = len(text)
+        for _ in range(-n):
+            idx = text.rfind(anchor, 0, idx)
+            if idx < 0:
+                raise Undecided("lost anchor: `%s` (occurrence %d)" % (anchor, n))
+        return idx
     idx = -1
     for _ in range(n):
         idx = text.find(anchor, idx + 1)
@@ -351,7 +363,7 @@ class Unit:
                 i += 1
                 out.extend(self._fn(rel, path, subs, len(out) + 1))
             elif kind in ('struct', 'enum'):
-                out.extend(self._type(kind, parts[1], parts[2], len(out) + 1))
+                out.extend(self._type(kind, parts[1], parts[2], len(out) + 1, noderive=('noderive' in parts[3:])))
                 i += 1
             elif kind == 'constseq':
                 out.extend(self._constseq(parts[1], parts[2]))
@@ -394,15 +406,13 @@ class Unit:
         text, n = rw_vis(text); self._use("R6", n)
         for r in rws:
             text, n = RW[r](text)
-            if n == 0:
-                raise Undecided("rewrite %s listed for %s but nothing to rewrite (function changed shape)" % (r, path))
             self._use("R2" if r == "R2u" else r, n)
         # ghost / annotation injections (never touch executable text)
         for e in edits:
             where, rest = e.split(None, 1)
             anchor, ins = rest.split(' ## ', 1)
             occ = 1
-            m = re.match(r'(.*)@(\d+)$', anchor.strip())
+            m = re.match(r'(.*)@(-?\d+)$', anchor.strip())
             anchor = anchor.strip()
             if m:
                 anchor, occ = m.group(1), int(m.group(2))
@@ -422,7 +432,7 @@ class Unit:
         self.linemap.append((gen_line, gen_line + len(res), rel, S.line_of(a) - len(head), path))
         return res
 
-    def _type(self, kw, rel, name, gen_line):
+    def _type(self, kw, rel, name, gen_line, noderive=False):
         S = src(rel)
         a, p, b = S.find_type(kw, name)
         text = S.text[p:b]     # attributes above dropped (R6)
@@ -437,7 +447,7 @@ class Unit:
         keep = []
         for dl in dropped:
             m = re.match(r'#\[derive\((.*)\)\]', dl)
-            if m:
+            if m and not noderive:
                 keep += [x.strip() for x in m.group(1).split(',') if x.strip() in ('Copy', 'Clone', 'Eq', 'PartialEq')]
         res = ["#[verus_verify]"] + (["#[derive(%s)]" % ", ".join(keep)] if keep else []) + ["pub " + text]
         self.items.append({"kind": kw, "file": rel, "path": name, "src_lines": [S.line_of(p), S.line_of(b)], "dropped_attrs": dropped})
@@ -464,6 +474,8 @@ class Unit:
             "impl %s {" % tyname,
             "    #[verifier::external_body]",
             "    pub fn %s() -> (r: &'static [%s]) ensures r@ == %s_%s_spec() { &[%s] }" % (fn, tyname, tyname, cname, ", ".join(elems_q)),
+            "    #[verifier::external_body]",
+            "    pub fn %s_rev() -> (r: &'static [%s]) ensures r@ == %s_%s_spec().reverse() { &[%s] }" % (fn, tyname, tyname, cname, ", ".join(reversed(elems_q))),
             "}",
             "}",
         ]
